@@ -29,3 +29,8 @@ def run(ctx) -> None:
     from ..models import make_interp as _mk
     from ..streamshapes import end_to_end
     end_to_end(ctx, _mk(ctx.p), "C02", "C02.Z.found-where-the-property-says", "C02.Z.not-found-elsewhere")
+    # W: the canonical witness listing of every skeleton is found, first character to last (stream templates)
+    from ..models import make_interp as _mkw
+    from ..streamshapes import witnesses
+    if ctx.tier == "thorough" or ('times',):
+        witnesses(ctx, _mkw(ctx.p), "C02.W.canonical-witness-is-found", tags=('times',) if ctx.tier != "thorough" or "C02" != "C07" else ())
